@@ -140,6 +140,20 @@ def obligations(tier, seed):
                 obs.append(Ob(f"optenc.{mt}.{gi // 4}", build(params, body, setup=SETUP + f"LAYOUT = {layout!r}\n"),
                               f"{mt}: an options record encoded from the YAML layout (byte, bit, size, inversion; chunk number {sp['options_chnm']}) is decoded by the real reader into the same option values",
                               group="options", shape=f"REF-ENC synth({mt}); options {grp} symbolic, the rest seeded", symbolic="every representable value of each option of the group", timeout=240))
+    # ---- (c2) option bounds of the YAML are enforced for every integer -----------------------------------
+    for mt, sp in S.items():
+        for o in sp["options"]:
+            if o["min"] is None or o["max"] is None:
+                continue
+            body = f"""
+    mod = CLS()
+    mod.{o['name']} = v
+    got = mod.{o['name']}
+    return got == (v if {o['min']} <= v <= {o['max']} else ({o['min']} if v < {o['min']} else {o['max']}))
+"""
+            obs.append(Ob(f"optbounds.{mt}.{o['name']}", build([INT("v")], body, setup=SETUP + f"CLS = {cls_expr(mt)}\n"),
+                          f"{mt}.{o['name']}: the YAML's bounds [{o['min']}, {o['max']}] are what the generated class enforces (clamp), for every assigned integer",
+                          group="options", shape=f"{mt}()", symbolic="v over all integers", timeout=600))
     # ---- (d) concrete side-conditions -------------------------------------------------------------
     flat = {mt: {"class_name": sp["class_name"], "group": sp["group"], "flags": sp["flags"], "options_chnm": sp["options_chnm"],
                  "controllers": [(c["name"], c["kind"], c.get("min"), c.get("max"), c.get("default"), sorted((c.get("members") or {}).items()), c["attached"],
